@@ -36,6 +36,13 @@ class Contract:
         self.max_paths = kw.pop("max_paths", None)
         self.assume_pre: list[str] = kw.pop("assume_pre", [])
         self.ghost_exit: dict[str, str] = kw.pop("ghost_exit", {})  # ghost location -> new value (old() = entry state)
+        # check_frame: opt-in syntactic frame check - every heap field written on a path (other than at objects created
+        # on that path) must be named by some `modifies` entry (see verify._frame_check)
+        self.check_frame: bool = kw.pop("check_frame", False)
+        # stop_at: anchors (statement text) at which the path ENDS after the cuts placed there are proved: a PREFIX
+        # verification - nothing is claimed about the code from that statement on (no exit obligations are generated)
+        self.stop_at: list[str] = kw.pop("stop_at", [])
+        self.entry_ref_lists: list[str] = kw.pop("entry_ref_lists", [])  # see verify._run_path
         self.exit_cuts: list[str] = kw.pop("exit_cuts", [])  # ghost cuts proved then assumed at every normal exit
         # callback=True (with trusted=True): contract of a callable STORED IN THE FIELD named by the key ("Cls.field");
         # applied when that field's value is called (see CallMixin.call_opaque)
@@ -50,7 +57,6 @@ class Contract:
         self.ghost_native: dict[str, str] = kw.pop("ghost_native", {})
         # check_frame: when the function is verified, every heap field it writes (or lets a callee havoc) must be
         # covered by `modifies` (fields of objects created by the function, and self.* in __init__, excepted)
-        self.check_frame: bool = kw.pop("check_frame", False)
         # types of unannotated locals initialised with an empty literal ("xs = []"): {name: type}
         self.local_types: dict[str, str] = kw.pop("locals", {})
         # objects (expressions over the function's parameters) that opaque callables cannot reach: all their fields
